@@ -604,9 +604,15 @@ func (st *DelegationStore) LoadState(state DelegationState) (succeed bool) {
 			blk.Data = append(blk.Data, data)
 		}
 	}
-	// write pending mature amounts to db
-	for height, mature := range blocks {
-		err := st.SetMatureAmounts(height, mature)
+	// write pending mature amounts to db, in height order: the order of writes is part of
+	// the state root, so it must not depend on map iteration order
+	heights := make([]int64, 0, len(blocks))
+	for height := range blocks {
+		heights = append(heights, height)
+	}
+	sort.Slice(heights, func(i, j int) bool { return heights[i] < heights[j] })
+	for _, height := range heights {
+		err := st.SetMatureAmounts(height, blocks[height])
 		if err != nil {
 			return
 		}
